@@ -92,6 +92,13 @@ Theorem C05_accept_iff_wf_pivot : forall ts g p1 p2,
 Proof. exact compile_pivot_accepts_iff. Qed.
 Print Assumptions C05_accept_iff_wf_pivot.
 
+(* the model's aggregate predicates are the code's get_columns_and_aggregates walk (two accumulators, nothing below
+   an aggregate node visited): non-emptiness of its two result lists; is_aggregate = bool(aggregates) *)
+Theorem C05_aggregate_predicates_are_the_walk : forall n,
+  has_col n = nonempty (fst (cols_aggs n)) /\ has_agg n = nonempty (snd (cols_aggs n)).
+Proof. exact predicates_are_the_walk. Qed.
+Print Assumptions C05_aggregate_predicates_are_the_walk.
+
 (* ---- every accepted SELECT / BALANCES / JOURNAL: hidden targets come after all visible ones; group_indexes are
    exactly the non-aggregate targets; a query without grouping has no aggregate target; HAVING / ORDER BY / PIVOT BY
    indexes are in range; the two pivot columns differ and the second one is grouped *)
